@@ -310,6 +310,90 @@ pub fn cmd_snapshot_stall(a: &[&str]) -> String {
     r
 }
 
+/// snapshot_stall_odd <ms>: the writer died between its two generation stores BEFORE the reader's first call: the generation is
+/// odd from the first load on. A fresh reader (nothing cached) calls snapshot(). Reports whether it returns within <ms>.
+pub fn cmd_snapshot_stall_odd(a: &[&str]) -> String {
+    let ms: u64 = a.get(0).and_then(|x| x.parse().ok()).unwrap_or(3000);
+    let path = tmp_path("so");
+    let mut bytes = header_bytes(72, 1, 3);
+    bytes.extend_from_slice(&[0u8; 56]);
+    write_file(&path, &bytes);
+    let (tx, rx) = std::sync::mpsc::channel();
+    let p2 = path.clone();
+    std::thread::spawn(move || {
+        let cpath = CString::new(p2.clone()).unwrap();
+        let mut reader = ShmReader::new(&cpath).expect("ShmReader::new");
+        let t0 = std::time::Instant::now();
+        let r = reader.snapshot().is_ok();
+        let _ = tx.send(format!("returned ok={} ms={}", r, t0.elapsed().as_millis()));
+    });
+    let r = match rx.recv_timeout(std::time::Duration::from_millis(ms)) {
+        Ok(s) => s,
+        Err(_) => {
+            let _ = std::fs::remove_file(&path);
+            println!("timeout snapshot() of a fresh reader did not return within {} ms against a writer that died on an odd generation", ms);
+            std::process::exit(0);
+        }
+    };
+    let _ = std::fs::remove_file(&path);
+    r
+}
+
+/// seq_publish <as_s,as_n,va_s,va_n,bound,drift,status,snap> ...: the real writer publishes the records one after the other (never
+/// concurrently with the reader); the real reader, opened after the first publication, takes a snapshot after every record whose
+/// last field is 1.  Prints what each snapshot returned.
+pub fn cmd_seq_publish(a: &[&str]) -> String {
+    let path = tmp_path("sq");
+    let _ = std::fs::remove_file(&path);
+    let res = std::panic::catch_unwind(std::panic::AssertUnwindSafe(|| {
+        let mut w = ShmWriter::new(std::path::Path::new(&path)).expect("ShmWriter::new");
+        let mut reader: Option<ShmReader> = None;
+        let mut out = Vec::new();
+        for (i, tok) in a.iter().enumerate() {
+            let v: Vec<i64> = tok.split(',').map(|x| x.parse().unwrap_or(0)).collect();
+            if v.len() < 8 {
+                continue;
+            }
+            let st = match v[6].rem_euclid(3) {
+                1 => ClockStatus::Synchronized,
+                2 => ClockStatus::FreeRunning,
+                _ => ClockStatus::Unknown,
+            };
+            let ceb = ClockErrorBound::new(
+                libc::timespec { tv_sec: v[0], tv_nsec: v[1] },
+                libc::timespec { tv_sec: v[2], tv_nsec: v[3] },
+                v[4],
+                v[5] as u32,
+                0,
+                st,
+            );
+            w.write(&ceb);
+            if reader.is_none() {
+                let cpath = CString::new(path.clone()).unwrap();
+                reader = Some(ShmReader::new(&cpath).expect("ShmReader::new"));
+            }
+            if v[7] == 1 {
+                let r = reader.as_mut().unwrap().snapshot();
+                out.push(match r {
+                    Ok(c) => {
+                        let b: [u8; 56] = unsafe { std::mem::transmute_copy(c) };
+                        let i64at = |o: usize| i64::from_ne_bytes(b[o..o + 8].try_into().unwrap());
+                        let u32at = |o: usize| u32::from_ne_bytes(b[o..o + 4].try_into().unwrap());
+                        format!("snap{}={},{},{},{},{},{},{}", i, i64at(0), i64at(8), i64at(16), i64at(24), i64at(32), u32at(40), u32at(48))
+                    }
+                    Err(e) => format!("snap{}=err:{:?}", i, e),
+                });
+            }
+        }
+        out.join(" ")
+    }));
+    let _ = std::fs::remove_file(&path);
+    match res {
+        Ok(s) => format!("ok {}", s),
+        Err(p) => format!("panic {}", crate::panic_msg(&p)),
+    }
+}
+
 /// open <hex bytes of the file | MISSING | DIR>: outcome of ShmReader::new and of ClockBoundClient::new_with_path
 pub fn cmd_open(a: &[&str]) -> String {
     let path = tmp_path("op");
